@@ -22,8 +22,8 @@ Statement kinds ("k"):
 Values: numeric leaves are decimal *strings* ("3.000003"), string leaves are {"s": text}, booleans are True/False,
 arrays are nested lists of leaves, an injection is {"ref": {"src": None|name, "path": p, "slice": None|[[a,b],..]}}
 (slice element [a,a] = index a, [a,b] = a:b with None for an open end).
-Expressions: ["self"], ["num", text, unit], ["str", text], ["bool", b], ["cmp", op, l, r], ["and", a, b],
-["or", a, b], ["not", x].
+Expressions: ["self"], ["node", path] ({?path}), ["num", text, unit], ["str", text], ["bool", b], ["cmp", op, l, r],
+["and", a, b], ["or", a, b], ["not", x], ["par", x].
 """
 import json
 from fractions import Fraction as F
@@ -361,6 +361,16 @@ def eval_expr(env, e, selfnode):
         n = selfnode
         if n.value is None or isinstance(n.value, list):
             raise Undemanded("condition on empty / array value")
+        if n.type in ("int", "float"):
+            return ("n", n.value, n.unit)
+        return ("b", n.value) if n.type == "bool" else ("s", n.value)
+    if k == "node":
+        # {?path}: the CURRENT value of another node of the environment (at validation time: its final value)
+        n = env.nodes.get(e[1])
+        if n is None:
+            raise Undemanded("condition refers to a node that does not exist")
+        if n.value is None or isinstance(n.value, list):
+            raise Undemanded("condition refers to an empty / array value")
         if n.type in ("int", "float"):
             return ("n", n.value, n.unit)
         return ("b", n.value) if n.type == "bool" else ("s", n.value)
